@@ -42,13 +42,16 @@ Judge(e) ==
         revpc == HasRevertedPc(e) \/ HasFailedPc(e)
         \* is the observed post-state exactly what the as-built machine (with the known defect
         \* mechanisms) predicts?  A deviation the machine does not explain is a different finding.
-        cls   == Shape(e) \o (IF Cmp(MTx(e)) = post THEN ",as-built=yes" ELSE ",as-built=NO")
+        \* random call trees (specs/EvmCosmosRand.tla) are classed by the mechanism only: whether the
+        \* as-built machine with the known defect mechanisms explains the recorded post-state exactly
+        rnd   == e.src = "rand"
+        cls   == (IF rnd THEN "random-tree" ELSE Shape(e)) \o (IF Cmp(MTx(e)) = post THEN ",as-built=yes" ELSE ",as-built=NO")
     IN  \* C02: supply and balances
         (IF revpc THEN {} ELSE
            (IF "supply" \in diff THEN {Sig("C02", IF BigLT(ideal.supply, post.supply) THEN "supply-minted" ELSE "supply-burned", cls, e)} ELSE {})
            \cup (IF diff \cap {"bank", "mods"} # {} THEN {Sig("C02", "balance-mismatch", cls, e)} ELSE {}))
         \* C05: a reverted frame (or failed transaction) left a trace
-        \cup (IF rev /\ diff # {} THEN {Sig("C05", (IF HasFailedPc(e) THEN "failed-precompile-call-left-trace:" ELSE "reverted-frame-left-trace:") \o FirstField(diff), cls, e)} ELSE {})
+        \cup (IF rev /\ diff # {} THEN {Sig("C05", (IF HasFailedPc(e) THEN "failed-precompile-call-left-trace:" ELSE "reverted-frame-left-trace:") \o (IF rnd THEN "*" ELSE FirstField(diff)), cls, e)} ELSE {})
         \* C04: authorization of successful calls; exact grant accounting
         \cup {Sig("C04", b.k, b.m \o "|" \o cls, e) : b \in r.bad}
         \cup (IF ~rev /\ "grants" \in diff THEN {Sig("C04", "grant-accounting", cls, e)} ELSE {})
